@@ -12,3 +12,19 @@ Open Scope Z_scope.
 Theorem base_annotation_units fo l g : segs_ok fo l = true ->
   read_cgsmiles fo ("{"%char :: segs_str l ++ ["}"%char]) = Ok g -> annotated_as fo g (node_texts (segs_toks l)).
 Proof. intros Hok H. rewrite (reader_sim_segs fo l Hok) in H. now apply finish_annotations. Qed.
+
+(** non-vacuity, and what "per copy" means: {[#A;q=1;foo=bar]([#B;w=2]|2)|3} - the token list names the anchor's
+    FULL text once per copy, so copies 2..n of an annotated anchor carry its charge / free keys too (node 3 and
+    node 6 below), not the attributes of the bare name *)
+Example base_annotation_units_example :
+  let fo := fo_of_table [(S "1", Some (S "1.0")); (S "2", Some (S "2.0"))] in
+  let u := {| u_name := S "A;q=1;foo=bar"; u_mult := None; u_bond := None;
+              u_body := [{| bn_name := S "B;w=2"; bn_mult := Some [2%nat]; bn_bond := None |}];
+              u_ms := None; u_count := [3%nat]; u_after := None |} in
+  segs_ok fo [SUnit u] = true /\
+  segs_str [SUnit u] = S "[#A;q=1;foo=bar]([#B;w=2]|2)|3" /\
+  node_texts (segs_toks [SUnit u]) =
+    [S "A;q=1;foo=bar"; S "B;w=2"; S "B;w=2"; S "A;q=1;foo=bar"; S "B;w=2"; S "B;w=2"; S "A;q=1;foo=bar"; S "B;w=2"; S "B;w=2"] /\
+  exists g, read_cgsmiles fo ("{"%char :: segs_str [SUnit u] ++ ["}"%char]) = Ok g /\
+            node_get g 3 (S "charge") = Some (VFlt (S "1.0")) /\ node_get g 6 (S "foo") = Some (VStr (S "bar")).
+Proof. repeat split; try (vm_compute; reflexivity). eexists. repeat split; vm_compute; reflexivity. Qed.
